@@ -149,8 +149,8 @@ pub async fn drive_schedule(sim: &mut Sim, ad: &mut dyn Adapter, evs: &[Value], 
     let dbg = std::env::var("VH_DEBUG").is_ok();
     let mut last_sk = 0;
     for (n, ev) in evs.iter().enumerate() {
-        if dbg && skipped > last_sk {
-            eprintln!("skipped step {} before {}", n, ev);
+        if dbg && skipped > last_sk && n > 0 {
+            eprintln!("skipped {}", evs[n - 1]);
             last_sk = skipped;
         }
         let e = ev.get("e").and_then(|v| v.as_str()).unwrap_or("");
